@@ -259,6 +259,10 @@ func (s *StateMachine) Recover(t Task) (_ pb.Snapshot, err error) {
 	if err := s.node.RestoreRemotes(ss); err != nil {
 		return pb.Snapshot{}, err
 	}
+	// the snapshot's index becomes visible as the applied index only now that
+	// the raft core knows the snapshot's membership, it is otherwise free to
+	// start an election with its stale membership in between
+	s.setSnapshotApplied(ss)
 	plog.Debugf("%s restored %s", s.id(), s.ssid(ss.Index))
 	return ss, nil
 }
@@ -421,10 +425,13 @@ func (s *StateMachine) apply(ss pb.Snapshot, init bool) {
 	s.logMembership("nonVotings", index, ss.Membership.NonVotings)
 	s.logMembership("witnesses", index, ss.Membership.Witnesses)
 	s.members.set(ss.Membership)
+	s.index, s.term = ss.Index, ss.Term
+}
+
+func (s *StateMachine) setSnapshotApplied(ss pb.Snapshot) {
 	s.lastApplied.Lock()
 	defer s.lastApplied.Unlock()
 	s.lastApplied.index, s.lastApplied.term = ss.Index, ss.Term
-	s.index, s.term = ss.Index, ss.Term
 }
 
 func (s *StateMachine) applyOnDisk(ss pb.Snapshot, init bool) {
